@@ -30,7 +30,7 @@ VARIANTS = {
     "asan": dict(cc="clang", cxx="clang++",
                  flags=["-O1", "-g", "-DNDEBUG", "-fno-omit-frame-pointer",
                         "-fsanitize=address,undefined", "-fsanitize-recover=address",
-                        "-fno-sanitize=alignment,shift,signed-integer-overflow,float-cast-overflow,vla-bound,function,vptr",
+                        "-fno-sanitize=alignment,shift,signed-integer-overflow,float-cast-overflow,vla-bound,function,vptr,pointer-overflow,nonnull-attribute",
                         "-fno-sanitize-recover=undefined"]),
     "asanhooks": dict(cc="clang", cxx="clang++",
                       flags=["-O1", "-g", "-DNDEBUG", "-fno-omit-frame-pointer", "-D" + GUARD,
